@@ -46,11 +46,13 @@ def ofDense [Zero α] (T : Dense α) : MArr α := ⟨T.shape, T.get⟩
 
 /-- Linear positions (first index fastest) addressed by a linear key; a linear key never
 resizes: every index must lie in `-cells .. cells-1`. -/
-def linTargets (s : List Nat) (idx : List Int) : Except Reject (List (List Nat)) :=
+def linTarget (s : List Nat) (i : Int) : Except Reject (List Nat) :=
   let n : Int := cells s
-  idx.mapM fun i =>
-    let j := if i < 0 then i + n else i
-    if 0 ≤ j ∧ j < n then .ok (ind2sub s j.toNat) else .error .reject
+  let j := if i < 0 then i + n else i
+  if 0 ≤ j ∧ j < n then .ok (ind2sub s j.toNat) else .error .reject
+
+def linTargets (s : List Nat) (idx : List Int) : Except Reject (List (List Nat)) :=
+  idx.mapM (linTarget s)
 
 def linIdx (s : List Nat) : Key → Except Reject (List Int)
   | .lin i => .ok [i]
@@ -59,6 +61,16 @@ def linIdx (s : List Nat) : Key → Except Reject (List Int)
     .ok (l.map Int.ofNat)
   | .linList is => .ok is
   | _ => .error .reject
+
+/-- Extent of a mode addressed by a slice with stop `b`: a write with an explicit
+non-negative stop needs that extent; an open slice covers what is there (a new mode starts
+with extent 1); a negative stop cannot define a new mode. -/
+def sliceExtent (ext : Nat) (isNew grow : Bool) (b : Option Int) : Except Reject Nat :=
+  if grow then
+    match b with
+    | none => .ok (if isNew then 1 else ext)
+    | some b => if 0 ≤ b then .ok (max ext b.toNat) else if isNew then .error .reject else .ok ext
+  else .ok ext
 
 /-- One mode of a region.  `ext` is the current extent (0 for a new mode), `grow` says
 whether the access may enlarge the array (writes) or not (reads).
@@ -74,17 +86,10 @@ def regionPart (ext : Nat) (isNew grow : Bool) : RPart → Except Reject (Nat ×
     if is.isEmpty then .error .reject
     else if maxNat is < ext ∨ grow then .ok (max ext (maxNat is + 1), is, true)
     else .error .reject
-  | .slice a b c =>
-    let ext' : Except Reject Nat :=
-      if grow then
-        match b with
-        | none => .ok (if isNew then 1 else ext)
-        | some b => if 0 ≤ b then .ok (max ext b.toNat) else if isNew then .error .reject else .ok ext
-      else .ok ext
-    do
-      let e ← ext'
-      let idx ← pySlice e a b c
-      .ok (e, idx, true)
+  | .slice a b c => do
+    let e ← sliceExtent ext isNew grow b
+    let idx ← pySlice e a b c
+    .ok (e, idx, true)
 
 /-- All modes of a region key against shape `s` (modes beyond the order are new). -/
 def regionParts (grow : Bool) : List Nat → List RPart → Except Reject (List (Nat × List Nat × Bool))
